@@ -62,14 +62,16 @@ Record ofinal := {
   f_dataerr : bool;          (* INBOUND/OUTBOUND_DATA_ERROR = 1 *)
   f_phase : Z;               (* tx.LastPhase() *)
   f_spilled : bool;          (* a body* file exists in the tmp dir *)
-  f_intr : Z                 (* tx.Interruption() status, 0 = none *)
+  f_intr : Z;                (* tx.Interruption() status, 0 = none *)
+  f_lenvar : bytes           (* REQUEST_BODY_LENGTH / RESPONSE_CONTENT_LENGTH *)
 }.
 
 Inductive bop := BW (n : nat) | BR.
 
 Inductive case :=
-  (* transaction level *)
-  | CT (dir : tb_dir) (limit mem : Z) (act : tb_action) (access engine_on : bool) (bp : tb_bproc)
+  (* transaction level: limit = SecRequestBodyLimit resp. SecResponseBodyLimit of the WAF, inmem = its
+     explicit SecRequestBodyInMemoryLimit (<= 0: not configured), set in BOTH directions *)
+  | CT (dir : tb_dir) (limit inmem : Z) (act : tb_action) (access engine_on : bool) (bp : tb_bproc)
        (processable deny : bool) (phase0 : Z) (body : bodyspec) (calls : list ccall)
        (rets : list oret) (fin : ofinal)
   (* buffer level: writes of consecutive pieces of the body / Reset on NewBodyBuffer(limit, mem);
@@ -113,8 +115,11 @@ Fixpoint bb_ops (o : bbopt) (b : bbuf) (body : bytes) (ops : list bop) : bbuf * 
 
 Definition ok (c : case) : bool :=
   match c with
-  | CT dir limit mem act access eng bp proc deny phase0 body calls rets fin =>
-    let cfg := {| c_dir := dir; c_opt := {| bo_limit := limit; bo_mem := mem |}; c_action := act;
+  | CT dir limit inmem act access eng bp proc deny phase0 body calls rets fin =>
+    let w := {| w_req_limit := match dir with Req => limit | Resp => 134217728 end;
+                w_req_inmem := if inmem <=? 0 then None else Some inmem;
+                w_resp_limit := match dir with Req => 524288 | Resp => limit end |} in
+    let cfg := {| c_dir := dir; c_opt := waf_buf_opts w dir; c_action := act;
                   c_access := access; c_engine_on := eng; c_bp := bp; c_processable := proc;
                   c_deny := deny |} in
     let '(s, os) := run_obs cfg (tb_init cfg phase0) (decode (body_of body) calls) in
@@ -132,7 +137,8 @@ Definition ok (c : case) : bool :=
       && Bool.eqb (s_dataerr s) (f_dataerr fin)
       && (s_phase s =? f_phase fin)
       && Bool.eqb (bb_spilled (s_buf s)) (f_spilled fin)
-      && (intr_code (s_intr s) =? f_intr fin)))
+      && (intr_code (s_intr s) =? f_intr fin)
+      && bytes_eqb (body_length_var cfg s) (f_lenvar fin)))
   | CB limit mem body ops rets contents size spilled =>
     let o := {| bo_limit := limit; bo_mem := mem |} in
     let '(b, os) := bb_ops o bb_empty body ops in
